@@ -102,6 +102,20 @@ func runSync(c *Case) ([]Obs, any) {
 			}
 			prevHash = hash
 		}
+		// hash -> height -> hash for every header of the universe (also the ones no longer / not yet stored)
+		for _, uh := range bu.headers {
+			hash := uh.BlockHash()
+			hh, ok := repo.Height(hash)
+			if ok != repo.Contains(hash) {
+				inverse = 0
+			}
+			if ok {
+				hash2, err2 := repo.Hash(ctx, hh)
+				if hh < 0 || hh > tipH || err2 != nil || !hash2.Equal(hash) {
+					inverse = 0
+				}
+			}
+		}
 		d := []int64{b2i(st.IsReady()), b2i(st.IsPendingSync()), int64(st.StartHeight()), bu.ID(&lh),
 			int64(st.BlocksRequestedCount()), int64(st.BlocksToRequestCount()), linked, inverse, int64(tipH + 1)}
 		return append(d, ids...)
